@@ -124,7 +124,7 @@ void Xml::remove(const Xml& e)
 
 Xml& Xml::put(const String& value)
 {
-	_()->children.clear();
+	clear();
 	_()->children << XmlText(value);
 	return *this;
 }
